@@ -52,6 +52,7 @@ def main():
     ap.add_argument('--list', action='store_true')
     ap.add_argument('--write-patches', action='store_true')
     ap.add_argument('--no-tests', action='store_true')
+    ap.add_argument('--keep-replays', default='')
     args = ap.parse_args()
     muts = list(MUTANTS)
     seeded = os.path.join(ROOT, 'seeded')
@@ -93,6 +94,11 @@ def main():
                 if rc == 1 and vio:
                     caught.append(p)
                 r.setdefault('checks', {})[p] = dict(exit=rc, violations=len(vio), first=(keys[0][:300] if keys else out[-300:]))
+            if args.keep_replays and caught:
+                import glob
+                os.makedirs(args.keep_replays, exist_ok=True)
+                for i, f in enumerate(sorted(glob.glob(f"{scratch}/out/replays/*.json"))):
+                    shutil.copy(f, os.path.join(args.keep_replays, m['id'].replace('/', '_') + ('-%d' % i if i else '') + '.json'))
             r['status'] = 'caught' if caught else 'MISSED'
             r['wall_s'] = round(time.time() - t0, 1)
             results.append(r)
